@@ -688,6 +688,11 @@ class ReadEvents(InoSpec):
 
     def post(self, ex, result):
         s = self.st(ex)
+        if "maps" in self.want:
+            c = z3.Const("xc", z3.IntSort())
+            mfx = ex.heap[(self.me.id, "_moved_from_events")]
+            ex.oblige("post[move records are still there when the batch is done: the second half of a rename may come with the next read]",
+                      isinstance(mfx, VDict) and z3.ForAll([c], z3.Implies(self.mf_entry.dom[c], mfx.dom[c])))
         ex.oblige("post[lock released]", LOCK not in ex.held)
         if self.released_by_me or getattr(self, "returned_closed", False):
             ex.oblige("post[after close() the reader gets an empty batch (its loop can end)]", isinstance(result, (list, VOpaque)) and (result == [] or getattr(result, "kind", "") == "emptylist"))
